@@ -380,10 +380,15 @@ def gravity_event_failures(limit=10 ** 6):
     for kernel in ('scattering_angles_with_gravity', 'scattering_angle_in_yz_plane'):
         fn = getattr(bl, kernel)
         outs = ('two_theta', 'phi') if kernel == 'scattering_angles_with_gravity' else ('two_theta',)
-        for wunit, bunit, gvec, dt in itertools.product(('angstrom', 'nm', 'mm', 'm'), ('m', 'mm'), ((0.0, -9.80665, 0.0), (0.0, -9.7, 1.2)), ('float64', 'float32')):
+        cells = [(*c, False) for c in itertools.product(('angstrom', 'nm', 'mm', 'm'), ('m', 'mm'), ((0.0, -9.80665, 0.0), (0.0, -9.7, 1.2)), ('float64', 'float32'))]
+        # "geometry per pixel": an incident beam per pixel, horizontal for some pixels and inclined for others (general kernel only: the
+        # other one refuses inclined beams) -- every pixel's events must get the dense value for that pixel's own beam
+        if kernel == 'scattering_angles_with_gravity':
+            cells += [(wu, 'm', (0.0, -9.80665, 0.0), d, True) for wu in ('angstrom', 'm') for d in ('float64', 'float32')]
+        for wunit, bunit, gvec, dt, per_pixel_beam in cells:
             if kernel == 'scattering_angle_in_yz_plane' and gvec[2] != 0:
                 continue        # that kernel is defined for gravity orthogonal to the incident beam only (it refuses anything else)
-            ident = f'{kernel}-{wunit}-{bunit}-{"orthogonal" if gvec[2] == 0 else "tilted"}-{dt}'
+            ident = f'{kernel}-{wunit}-{bunit}-{"orthogonal" if gvec[2] == 0 else "tilted"}-{dt}' + ('-beam-per-pixel' if per_pixel_beam else '')
             wav = sc.array(dims=['event'], values=lam_A, unit='angstrom').to(unit=wunit).to(dtype=dt)
             buf = sc.DataArray(sc.array(dims=['event'], values=np.arange(1.0, 8.0), variances=np.arange(1.0, 8.0) / 10, unit='counts'), coords={'wavelength': wav})
             da = sc.DataArray(sc.bins(data=buf, dim='event', begin=sc.array(dims=['det'], values=begin, unit=None), end=sc.array(dims=['det'], values=end, unit=None)),
@@ -393,7 +398,10 @@ def gravity_event_failures(limit=10 ** 6):
                                       'wavelength': sc.array(dims=['wavelength'], values=[0.5, 6.0], unit='angstrom').to(unit=wunit).to(dtype=dt)},
                               masks={'bad': sc.array(dims=['det'], values=[False, True, False])})
             da = da.broadcast(sizes={'det': 3, 'wavelength': 1}).copy()
+            if per_pixel_beam:
+                da.coords['incident_beam'] = sc.vectors(dims=['det'], values=[[0.0, 0.0, 41.1], [0.0, 0.0, 12.0], [0.0, 3.0, 10.0]], unit='m').to(unit=bunit)
             before = da.copy(deep=True)
+            beam_of = (lambda p: before.coords['incident_beam']['det', p]) if per_pixel_beam else (lambda p: before.coords['incident_beam'])
             try:
                 res = da.transform_coords(list(outs), graph={outs if len(outs) > 1 else outs[0]: fn}, quiet=True, keep_inputs=True, rename_dims=False)
             except Exception as e:  # noqa: BLE001
@@ -412,7 +420,7 @@ def gravity_event_failures(limit=10 ** 6):
                         ev = before['det', p].values[0].coords['wavelength']
                         if ev.sizes['event'] == 0:
                             continue
-                        dense = fn(incident_beam=before.coords['incident_beam'], scattered_beam=before.coords['scattered_beam']['det', p],
+                        dense = fn(incident_beam=beam_of(p), scattered_beam=before.coords['scattered_beam']['det', p],
                                    wavelength=ev.copy(), gravity=before.coords['gravity'])
                         dense = dense[name] if isinstance(dense, dict) else dense
                         got = res['det', p].values[0].coords[name]
@@ -420,7 +428,7 @@ def gravity_event_failures(limit=10 ** 6):
                             prob = f'{name} of the events of pixel {p} differs from the dense kernel: {got.values[:2]} {got.unit} vs {dense.values[:2]} {dense.unit}'
                             break
                         edges = before.coords['wavelength']['det', p] if 'det' in before.coords['wavelength'].dims else before.coords['wavelength']
-                        dense_e = fn(incident_beam=before.coords['incident_beam'], scattered_beam=before.coords['scattered_beam']['det', p],
+                        dense_e = fn(incident_beam=beam_of(p), scattered_beam=before.coords['scattered_beam']['det', p],
                                      wavelength=edges.copy(), gravity=before.coords['gravity'])
                         dense_e = dense_e[name] if isinstance(dense_e, dict) else dense_e
                         got_e = res.coords[name]['det', p]
@@ -440,7 +448,7 @@ def bounded_gravity_events(chk):
     fails = gravity_event_failures()
     chk.bounded_check('gravity-kernels-per-event', 'real scattering_angles_with_gravity / scattering_angle_in_yz_plane on event wavelengths vs the dense kernel event by event; '
                       'weights, layout, masks, wavelength coordinates, input', 'all 48 cells of kernel x wavelength unit (angstrom, nm, mm, m) x beam unit (m, mm) x gravity direction (orthogonal; tilted for the general kernel) x '
-                      'float64/float32', 48, fails[:20])
+                      'float64/float32, and 4 cells with an incident beam per pixel (horizontal for two pixels, inclined for the third, which has events)', 52, fails[:20])
 
 
 def bounded_events(chk):
